@@ -1713,6 +1713,53 @@ Proof.
   split; [vm_compute; reflexivity|]. split; vm_compute; intro H; discriminate H.
 Qed.
 
+(* the hypotheses of [reset_restores_commit] are jointly satisfiable: it is
+   applied to the example (the conclusion itself is not computed); the worlds
+   are kept behind a constant so that only [vm_compute] ever evaluates them *)
+Lemma step_ok_intro : forall a w out,
+  snd (fst (step a w)) = OOk out -> step a w = (step_w a w, OOk out, snd (step a w)).
+Proof.
+  intros a w out H. unfold step_w. destruct (step a w) as [[w' o] tr]. cbn [fst snd] in *.
+  subst o. reflexivity.
+Qed.
+
+Definition ex_w0 : world := run ex_prefix w_empty.
+Notation ex_c1 := (ACmd ex_env (CCommit (str "first"))).
+Notation ex_rs := (ACmd ex_env (CReset false true false [str "HEAD@{1}"])).
+Notation ex_w1 := (step_w ex_c1 ex_w0).
+Notation ex_w2 := (run ex_suffix ex_w1).
+Definition opt_bytes (o : option bytes) : bytes := match o with Some c => c | None => [] end.
+Definition ex_cid : bytes := opt_bytes (am_get (w_refs ex_w1) (w_head ex_w1)).
+
+Lemma ex_h1 : GoodW ex_w0.
+Proof.
+  apply good_run_strong.
+  - pose proof ex_history_ok as H. unfold ex_history in H. apply Forall_app in H. apply H.
+  - vm_compute. reflexivity.
+  - apply small_store_b. vm_compute. reflexivity.
+Qed.
+
+Lemma ex_h2 : snd (fst (step ex_c1 ex_w0)) = OOk [].
+Proof. vm_compute. reflexivity. Qed.
+Lemma ex_s2 : am_get (w_refs ex_w1) (w_head ex_w1) = Some ex_cid.
+Proof. vm_compute. reflexivity. Qed.
+Lemma ex_s3 : w_coll ex_w2 = false.
+Proof. vm_compute. reflexivity. Qed.
+Lemma ex_s4 : SmallStore (w_objs ex_w2).
+Proof. apply small_store_b. vm_compute. reflexivity. Qed.
+Lemma ex_h5 : snd (fst (step ex_rs ex_w2)) = OOk [].
+Proof. vm_compute. reflexivity. Qed.
+Lemma ex_s6 : reset_target ex_w2 (str "HEAD@{1}") = Some ex_cid.
+Proof. vm_compute. reflexivity. Qed.
+
+Example ex_theorem_applies : idx_of (step_w ex_rs ex_w2) = idx_of ex_w0.
+Proof.
+  exact (reset_restores_commit ex_env (str "first") ex_w0 ex_w1 [] (snd (step ex_c1 ex_w0)) ex_suffix
+           ex_env false true false (str "HEAD@{1}") (step_w ex_rs ex_w2) [] (snd (step ex_rs ex_w2)) ex_cid
+           ex_h1 (step_ok_intro ex_c1 ex_w0 [] ex_h2) ex_s2 ex_s3 ex_s4
+           (step_ok_intro ex_rs ex_w2 [] ex_h5) eq_refl ex_s6).
+Qed.
+
 (* ================================================================== *)
 Print Assumptions good_run.
 Print Assumptions good_run_strong.
@@ -1729,3 +1776,4 @@ Print Assumptions commit_nothing_refused.
 Print Assumptions commit_guard_passes.
 Print Assumptions ex_history_result.
 Print Assumptions ex_history_good.
+Print Assumptions ex_theorem_applies.
